@@ -5,7 +5,7 @@ import ast
 import alg
 from alg import Expr, ZERO, ONE
 from front import AnalysisError, dotted_name
-from interp import Interp, Opaque, Tup, Arr, SymArr, Unknown, SliceV, explore
+from interp import Interp, Opaque, Tup, Arr, SymArr, Unknown, SliceV, explore, has_unknown
 from report import Result, Ob, eq_ob, req_ob
 import config_model as CM
 import props_wiring as pw
@@ -70,6 +70,18 @@ class Recorder:
                     dt = {"float": "float64", "int": "int64"}.get(dt.dotted, dt.dotted)  # dtype=float, dtype=object, ...
                 o = Opaque("alloc@%s" % node.lineno, {"shape": shp, "fill": kind if kind != "full" else (args[1] if len(args) > 1 else None), "dtype": dt, "line": node.lineno})
                 rec.arrays.append(o)
+                dims = shp.items if isinstance(shp, Tup) else None
+                if dims and len(dims) == 2 and isinstance(dims[0], Expr) and dims[0].as_const() is not None and 1 <= dims[0].as_const().re <= 16:
+                    # a small block of rows: iterating it (or indexing it with a row number) hands out views of its rows
+                    rows = [Opaque("row %d of alloc@%s" % (k, node.lineno), {"row_of": (o, k), "dtype": dt}) for k in range(int(dims[0].as_const().re))]
+                    o.attrs["unpack"] = rows
+
+                    def getitem(key, rows=rows):
+                        c = key.as_const() if isinstance(key, Expr) else None
+                        if c is not None and c.im == 0 and 0 <= c.re < len(rows):
+                            return rows[int(c.re)]
+                        return Unknown("item %r of a block of rows" % (key,))
+                    o.attrs["getitem"] = getitem
                 return o
             return h
 
@@ -170,7 +182,7 @@ def io_obligations(P):
                     arr_stores = []
                     for e in r.events:
                         if e[0] == "item-store":
-                            nm, idx, val = e[2]
+                            nm, idx, val = e[2][:3]
                             arr_stores.append((nm, idx, val))
                     placed = {}
                     for nm, idx, val in arr_stores:
@@ -228,10 +240,32 @@ def io_obligations(P):
                     obs.append(req_ob("R-NC-COORD", site, "coordinate %s is %s[%s] %s" % (cname, gname, ",".join(index), tag), ok, detail=repr(val)[:120], key={"coord": cname}))
                 # ---- per-step met values
                 met = {"ustar": "ustar", "mol": "mol", "wind_speed": "ws", "wind_dir": "wd"}
+                obj_stores = [(e[2][3] if len(e[2]) > 3 else None, e[2][1], e[2][2]) for e in r.events if e[0] == "item-store"]
+
+                def written_at(container, t):
+                    """what the container handed to the dataset holds at time index t: the last value stored there, through the
+                    container itself, through a row view of a block, or through the block at (row, t)"""
+                    out = None
+                    for ob, idx, val in obj_stores:
+                        if ob is container and isinstance(idx, Expr) and idx.eq(alg.const(t)):
+                            out = val
+                        row = container.attrs.get("row_of") if isinstance(container, Opaque) else None
+                        if row is not None and ob is row[0] and isinstance(idx, Tup) and len(idx.items) == 2 and all(isinstance(i, Expr) for i in idx.items) and idx.items[0].eq(alg.const(row[1])) and idx.items[1].eq(alg.const(t)):
+                            out = val
+                    return out
+
                 for var, pre in met.items():
-                    ok = all(any(isinstance(val, Expr) and val.eq(alg.sym("%s_%d" % (pre, t))) and isinstance(idx, Expr) and idx.eq(alg.const(t)) for nm, idx, val in arr_stores) for t in range(n_time))
-                    obs.append(req_ob("R-NC-FIELDS", site, "%s of every step is written at its own time index %s" % (var, tag), ok, key={"var": var}))
                     ent = dvd.get(var)
+                    data = ent.items[1] if isinstance(ent, Tup) and len(ent.items) >= 2 else None
+                    if isinstance(data, Opaque) and ("shape" in data.attrs or "row_of" in data.attrs):
+                        got = [written_at(data, t) for t in range(n_time)]
+                        ok = all(isinstance(g, Expr) and g.eq(alg.sym("%s_%d" % (pre, t))) for t, g in enumerate(got))
+                        if not ok and any(g is not None and has_unknown(g) for g in got):
+                            ok = None  # (an index that was never written holds the fill value: a definite different content)
+                        det = None if ok else "the array written as %s holds %s" % (var, [repr(g)[:30] for g in got])
+                    else:
+                        ok, det = None, "the data of variable %s is %r" % (var, data)
+                    obs.append(req_ob("R-NC-FIELDS", site, "the array written as variable %s holds, at every time index, that step's own %s %s" % (var, var, tag), ok, detail=det, key={"var": var}))
                     okd = isinstance(ent, Tup) and isinstance(ent.items[0], Tup) and ent.items[0].items == ["time"]
                     obs.append(req_ob("R-NC-FIELDS", site, "%s is a variable over time %s" % (var, tag), okd))
                 if z0:
